@@ -1685,6 +1685,9 @@ func tornChild(c caseIn) tornResult {
 		atomic.StoreInt32(&inCall, 0)
 		res.Reads++
 		bad := ""
+		if err != nil {
+			v = nil
+		}
 		switch x := v.(type) {
 		case map[string]any:
 			bad = checkHash(x)
